@@ -192,6 +192,78 @@ theorem setTopUppedArray_toppedUp (l : List Bool) (s0 : BitString) :
         have : i - l.length = (i - l.length - 1) + 1 := by omega
         rw [this, List.getElem?_cons_succ, List.getElem?_cons_succ]
 
+/-- the tag search over zeros only: after `j` rounds nothing was found and the length went down by `j` -/
+theorem stripLoop_zeros (j : Nat) : ∀ (s : BitString), j ≤ s.len → s.len ≤ 8 * s.buf.length →
+    (∀ i, i < j → (bytesToBits s.buf)[s.len - 1 - i]? = some false) →
+    stripLoop j s = (.ok false, { s with len := s.len - j }) := by
+  induction j with
+  | zero => intro s _ _ _; simp [stripLoop]
+  | succ j ih =>
+    intro s hj h8 hz
+    have hq8 : s.len - 1 < 8 * s.buf.length := by omega
+    have hbit : (bytesToBits s.buf)[s.len - 1]'(by simpa using hq8) = false := by
+      have := hz 0 (by omega)
+      simp only [Nat.sub_zero] at this
+      exact (List.getElem?_eq_some_iff.mp this).2
+    simp only [stripLoop, bind_run, modify_run, get_run, mustGetBit_run]
+    have hg : getBitOf { s with len := s.len - 1 } (s.len - 1) = .ok false := by
+      have := getBitOf_bits { s with len := s.len - 1 } (s.len - 1) hq8
+      simp only at this
+      rw [this, hbit]
+    rw [hg]
+    simp only [liftO_ok, Bool.false_eq_true, if_false]
+    rw [ih { s with len := s.len - 1 } (by simp; omega) (by simp; omega) (by
+      intro i hi
+      have := hz (i + 1) (by omega)
+      have e : s.len - 1 - (i + 1) = s.len - 1 - 1 - i := by omega
+      rw [e] at this
+      exact this)]
+    simp [Nat.sub_sub, Nat.add_comm]
+
+/-- `SetTopUppedArray(arr, false)` on an array whose last 7 bits contain no completion tag is an error -/
+theorem setTopUppedArray_no_tag (arr : List UInt8) (s0 : BitString) (hne : arr ≠ [])
+    (hz : ∀ i, i < 7 → (bytesToBits arr)[8 * arr.length - 1 - i]? = some false) :
+    ∃ s', BitString.setTopUppedArray arr false s0 = (.err "incorrect topUppedArray", s') := by
+  have hpos : 0 < arr.length := List.length_pos_iff.mpr hne
+  have hf : ¬ ((false = true) ∨ arr.length * 8 = 0) := by
+    intro h; rcases h with h | h
+    · cases h
+    · omega
+  simp only [setTopUppedArray, bind_run, modify_run, ite_run, hf, if_false]
+  rw [stripLoop_zeros 7 _ (by simp only; omega) (by simp only; omega) (by
+    intro i hi
+    have := hz i hi
+    simp only
+    have e : arr.length * 8 - 1 - i = 8 * arr.length - 1 - i := by omega
+    rw [e]; exact this)]
+  exact ⟨_, rfl⟩
+
+/-- `SetTopUppedArray(arr, false)` in general: if the bits of `arr` are `l ++ 1 0^j` with `j ≤ 6`, the result is `l` -/
+theorem setTopUppedArray_tagged (arr : List UInt8) (l : List Bool) (j : Nat) (hj : j ≤ 6)
+    (hb : bytesToBits arr = l ++ true :: List.replicate j false) (s0 : BitString) :
+    ∃ s', BitString.setTopUppedArray arr false s0 = (.ok (), s') ∧ s'.len = l.length ∧
+      (bytesToBits s'.buf).take s'.len = l := by
+  have hl8 : 8 * arr.length = l.length + 1 + j := by
+    have := congrArg List.length hb
+    simp only [bytesToBits_length, List.length_append, List.length_cons, List.length_replicate] at this
+    omega
+  have hf : ¬ ((false = true) ∨ arr.length * 8 = 0) := by
+    intro h; rcases h with h | h
+    · cases h
+    · omega
+  simp only [setTopUppedArray, bind_run, modify_run, ite_run, hf, if_false]
+  obtain ⟨s', hs, hl', _, _, _, hbits'⟩ := stripLoop_spec j 7
+    { s0 with cap := arr.length * 8, buf := arr, len := arr.length * 8 } l.length l
+    (by simp only [hb]; rw [List.take_of_length_le (by simp; omega)])
+    rfl (by simp only; omega) (by simp only; omega) (by simp only; omega) (by omega)
+  rw [hs]
+  simp only [if_true, pure_run]
+  refine ⟨s', rfl, hl', ?_⟩
+  rw [hbits', hl']
+  simp only [hb]
+  rw [List.take_set, List.take_append_of_le_length (Nat.le_refl _), List.take_length,
+    List.set_eq_of_length_le (Nat.le_refl _)]
+
 end Tongo.BitString
 
 namespace Tongo.MCell
